@@ -345,8 +345,10 @@ pub fn json_to_js_value_with_guard(
             let obj = interp.create_object(guard);
             for (key, value) in map {
                 let js_value = json_to_js_value_with_guard(interp, value, guard)?;
-                let interned_key = PropertyKey::String(interp.intern(key));
-                obj.borrow_mut().set_property(interned_key, js_value);
+                // Canonicalise the key the same way property access does ("0" is an index key),
+                // otherwise `o[0]` / `o["0"]` cannot find the entry.
+                let prop_key = interp.property_key(key);
+                obj.borrow_mut().set_property(prop_key, js_value);
             }
             JsValue::Object(obj)
         }
